@@ -275,7 +275,7 @@ pub fn sem(r: &Report) -> Result<Vec<(String, CovResult)>, &'static str> {
                         return Err("Parse");
                     }
                     let n: u64 = match c {
-                        Count::Neg(_) => 0,
+                        Count::Neg(_) => 1,
                         Count::Num(d) => {
                             if d.val > u64::MAX as u128 {
                                 return Err("Parse");
